@@ -467,7 +467,7 @@ pub fn run_shut_case(which: Which, case: &ShutCase) -> SeqOutcome {
     if let Some(p) = std::env::var_os("VH_CURRENT") {
         // crash attribution: if this process dies inside the Runner, the driver finds the case here
         let prop = std::env::var("VH_PROP").unwrap_or_default();
-        let rp = crate::gdrive::GReplay { property: prop, engine: "shut".into(), config: "shuttle".into(), seed: 0, tape: vec![], gcase: case.clone(), violations: vec![] };
+        let rp = crate::gdrive::GReplay { property: prop, engine: "shut".into(), config: "shuttle".into(), seed: 0, tape: vec![], gcase: case.clone(), violations: vec![], ncpu: crate::drive::ncpu() };
         let _ = std::fs::write(p, serde_json::to_string(&rp).unwrap());
     }
     let sh = Arc::new(Shared::default());
